@@ -416,3 +416,84 @@ Theorem C15_model_cli_vers : forall r v : bytes,
   end.
 Proof. intros r v. exact (cli_vers_contains model_lib model_vers r v). Qed.
 Print Assumptions C15_model_cli_vers.
+
+(* ====== ties to the source: BEGIN (written by bin/mkties) ====== *)
+(* The Go functions named here are translated into Gallina from /repo's source on every run
+   (tools/gen -> Gen/Code/<Eco>.v for loop-free functions, Gen/Loops/<Eco>.v for functions with
+   loops and index expressions, where a panic is Panic and a loop takes fuel); Tie/<Eco>.v,
+   Tie/<Eco>Range.v and Tie/Loops/<Eco>.v prove each translation equal to the model the theorems
+   above speak about (and, for the loop functions: no panic, termination within a linear bound).
+   If the code changes so that a tie no longer holds, this file no longer checks. *)
+Require Verif.Tie.Cli.Cases.
+Require Verif.Tie.Cli.Run.
+Require Verif.Tie.Cli.RunInst.
+Require Verif.Tie.Cli.Spec.
+Require Verif.Tie.Cli.Ties.
+Definition C15_tie_runEcosystem_cases := @Verif.Tie.Cli.Cases.runEcosystem_cases.
+Definition C15_tie_runEcosystem_status := @Verif.Tie.Cli.Cases.runEcosystem_status.
+Definition C15_tie_runEcosystem_success_one_line := @Verif.Tie.Cli.Cases.runEcosystem_success_one_line.
+Definition C15_tie_runEcosystem_failure_diagnostic := @Verif.Tie.Cli.Cases.runEcosystem_failure_diagnostic.
+Definition C15_tie_run_src_routing := @Verif.Tie.Cli.Run.run_src_routing.
+Definition C15_tie_run_src_routing_vers := @Verif.Tie.Cli.Run.run_src_routing_vers.
+Definition C15_tie_run_src_unknown := @Verif.Tie.Cli.Run.run_src_unknown.
+Definition C15_tie_run_src_eq := @Verif.Tie.Cli.Run.run_src_eq.
+Definition C15_tie_run_src_no_panic := @Verif.Tie.Cli.Run.run_src_no_panic.
+Definition C15_tie_run_spec_tie := @Verif.Tie.Cli.Run.run_spec_tie.
+Definition C15_tie_run_src_tie := @Verif.Tie.Cli.Run.run_src_tie.
+Definition C15_tie_run_is_run_src := @Verif.Tie.Cli.RunInst.run_is_run_src.
+Definition C15_tie_run_routing_alpine := @Verif.Tie.Cli.RunInst.run_routing_alpine.
+Definition C15_tie_run_routing_alpm := @Verif.Tie.Cli.RunInst.run_routing_alpm.
+Definition C15_tie_run_routing_apache := @Verif.Tie.Cli.RunInst.run_routing_apache.
+Definition C15_tie_run_routing_cargo := @Verif.Tie.Cli.RunInst.run_routing_cargo.
+Definition C15_tie_run_routing_conan := @Verif.Tie.Cli.RunInst.run_routing_conan.
+Definition C15_tie_run_routing_composer := @Verif.Tie.Cli.RunInst.run_routing_composer.
+Definition C15_tie_run_routing_cran := @Verif.Tie.Cli.RunInst.run_routing_cran.
+Definition C15_tie_run_routing_debian := @Verif.Tie.Cli.RunInst.run_routing_debian.
+Definition C15_tie_run_routing_gem := @Verif.Tie.Cli.RunInst.run_routing_gem.
+Definition C15_tie_run_routing_gentoo := @Verif.Tie.Cli.RunInst.run_routing_gentoo.
+Definition C15_tie_run_routing_github := @Verif.Tie.Cli.RunInst.run_routing_github.
+Definition C15_tie_run_routing_golang := @Verif.Tie.Cli.RunInst.run_routing_golang.
+Definition C15_tie_run_routing_hex := @Verif.Tie.Cli.RunInst.run_routing_hex.
+Definition C15_tie_run_routing_mattermost := @Verif.Tie.Cli.RunInst.run_routing_mattermost.
+Definition C15_tie_run_routing_maven := @Verif.Tie.Cli.RunInst.run_routing_maven.
+Definition C15_tie_run_routing_npm := @Verif.Tie.Cli.RunInst.run_routing_npm.
+Definition C15_tie_run_routing_nuget := @Verif.Tie.Cli.RunInst.run_routing_nuget.
+Definition C15_tie_run_routing_pypi := @Verif.Tie.Cli.RunInst.run_routing_pypi.
+Definition C15_tie_run_routing_rpm := @Verif.Tie.Cli.RunInst.run_routing_rpm.
+Definition C15_tie_run_routing_semver := @Verif.Tie.Cli.RunInst.run_routing_semver.
+Definition C15_tie_run_routing_vers := @Verif.Tie.Cli.RunInst.run_routing_vers.
+Definition C15_tie_run_routing_unknown := @Verif.Tie.Cli.RunInst.run_routing_unknown.
+Definition C15_tie_registry_of_bundles := @Verif.Tie.Cli.RunInst.registry_of_bundles.
+Definition C15_tie_run_no_panic := @Verif.Tie.Cli.RunInst.run_no_panic.
+Definition C15_tie_run_tie := @Verif.Tie.Cli.RunInst.run_tie.
+Definition C15_tie_run_tie_model_cli := @Verif.Tie.Cli.RunInst.run_tie_model_cli.
+Definition C15_tie_compare_eq := @Verif.Tie.Cli.Spec.compare_eq.
+Definition C15_tie_contains_eq := @Verif.Tie.Cli.Spec.contains_eq.
+Definition C15_tie_sort_eq := @Verif.Tie.Cli.Spec.sort_eq.
+Definition C15_tie_runEcosystem_eq := @Verif.Tie.Cli.Spec.runEcosystem_eq.
+Definition C15_tie_compare_no_panic := @Verif.Tie.Cli.Spec.compare_no_panic.
+Definition C15_tie_contains_no_panic := @Verif.Tie.Cli.Spec.contains_no_panic.
+Definition C15_tie_sort_no_panic := @Verif.Tie.Cli.Spec.sort_no_panic.
+Definition C15_tie_runEcosystem_no_panic := @Verif.Tie.Cli.Spec.runEcosystem_no_panic.
+Definition C15_tie_versContains_eq := @Verif.Tie.Cli.Spec.versContains_eq.
+Definition C15_tie_versContains_no_panic := @Verif.Tie.Cli.Spec.versContains_no_panic.
+Definition C15_tie_runVers_eq := @Verif.Tie.Cli.Spec.runVers_eq.
+Definition C15_tie_runVers_no_panic := @Verif.Tie.Cli.Spec.runVers_no_panic.
+Definition C15_tie_Forall2_map_eq := @Verif.Tie.Cli.Ties.Forall2_map_eq.
+Definition C15_tie_compare_tie := @Verif.Tie.Cli.Ties.compare_tie.
+Definition C15_tie_contains_tie := @Verif.Tie.Cli.Ties.contains_tie.
+Definition C15_tie_sort_tie_none := @Verif.Tie.Cli.Ties.sort_tie_none.
+Definition C15_tie_sort_tie_upto := @Verif.Tie.Cli.Ties.sort_tie_upto.
+Definition C15_tie_sort_tie := @Verif.Tie.Cli.Ties.sort_tie.
+Definition C15_tie_runEcosystem_tie := @Verif.Tie.Cli.Ties.runEcosystem_tie.
+Definition C15_tie_runEcosystem_exit_code := @Verif.Tie.Cli.Ties.runEcosystem_exit_code.
+Definition C15_tie_compare_generated_tie := @Verif.Tie.Cli.Ties.compare_generated_tie.
+Definition C15_tie_contains_generated_tie := @Verif.Tie.Cli.Ties.contains_generated_tie.
+Definition C15_tie_sort_generated_tie := @Verif.Tie.Cli.Ties.sort_generated_tie.
+Definition C15_tie_runEcosystem_generated_tie := @Verif.Tie.Cli.Ties.runEcosystem_generated_tie.
+Definition C15_tie_versContains_tie := @Verif.Tie.Cli.Ties.versContains_tie.
+Definition C15_tie_runVers_spec_tie := @Verif.Tie.Cli.Ties.runVers_spec_tie.
+Definition C15_tie_runVers_generated_tie := @Verif.Tie.Cli.Ties.runVers_generated_tie.
+Definition C15_ties_all := (C15_tie_Forall2_map_eq, (C15_tie_compare_eq, (C15_tie_compare_generated_tie, (C15_tie_compare_no_panic, (C15_tie_compare_tie, (C15_tie_contains_eq, (C15_tie_contains_generated_tie, (C15_tie_contains_no_panic, (C15_tie_contains_tie, (C15_tie_registry_of_bundles, (C15_tie_runEcosystem_cases, (C15_tie_runEcosystem_eq, (C15_tie_runEcosystem_exit_code, (C15_tie_runEcosystem_failure_diagnostic, (C15_tie_runEcosystem_generated_tie, (C15_tie_runEcosystem_no_panic, (C15_tie_runEcosystem_status, (C15_tie_runEcosystem_success_one_line, (C15_tie_runEcosystem_tie, (C15_tie_runVers_eq, (C15_tie_runVers_generated_tie, (C15_tie_runVers_no_panic, (C15_tie_runVers_spec_tie, (C15_tie_run_is_run_src, (C15_tie_run_no_panic, (C15_tie_run_routing_alpine, (C15_tie_run_routing_alpm, (C15_tie_run_routing_apache, (C15_tie_run_routing_cargo, (C15_tie_run_routing_composer, (C15_tie_run_routing_conan, (C15_tie_run_routing_cran, (C15_tie_run_routing_debian, (C15_tie_run_routing_gem, (C15_tie_run_routing_gentoo, (C15_tie_run_routing_github, (C15_tie_run_routing_golang, (C15_tie_run_routing_hex, (C15_tie_run_routing_mattermost, (C15_tie_run_routing_maven, (C15_tie_run_routing_npm, (C15_tie_run_routing_nuget, (C15_tie_run_routing_pypi, (C15_tie_run_routing_rpm, (C15_tie_run_routing_semver, (C15_tie_run_routing_unknown, (C15_tie_run_routing_vers, (C15_tie_run_spec_tie, (C15_tie_run_src_eq, (C15_tie_run_src_no_panic, (C15_tie_run_src_routing, (C15_tie_run_src_routing_vers, (C15_tie_run_src_tie, (C15_tie_run_src_unknown, (C15_tie_run_tie, (C15_tie_run_tie_model_cli, (C15_tie_sort_eq, (C15_tie_sort_generated_tie, (C15_tie_sort_no_panic, (C15_tie_sort_tie, (C15_tie_sort_tie_none, (C15_tie_sort_tie_upto, (C15_tie_versContains_eq, (C15_tie_versContains_no_panic, C15_tie_versContains_tie)))))))))))))))))))))))))))))))))))))))))))))))))))))))))))))))).
+Print Assumptions C15_ties_all.
+(* ====== ties to the source: END ====== *)
